@@ -223,7 +223,7 @@ def check_C05(run):
                   "one event per (schema type, Go kind) pair of a 32 x 57 matrix (14 Avro types with parameters; every Go kind incl. unsigned, complex, arrays of several lengths, maps with non-string keys, "
                   "pointers, interface, chan, func), destination = field F of struct{Pre [16]byte; F; Post [16]byte; Sib} in the middle of a 3-element array; per built pair 4 (16 thorough) decodes of "
                   "independently written valid encodings (incl. extreme longs) and damaged ones; keys are schema|kind",
-                  extra=dict(pairs=meta.get("pairs"), pairs_built=meta.get("pairs_built")), exhaustive=True)
+                  extra=dict(pairs=meta.get("pairs"), pairs_built=meta.get("pairs_built"), matrix_of_pairs_enumerated_completely=True), exhaustive=False)
     return V.finish("C05", run.tier, run.seed, "model_checking", cov, rejected, out, run.t0,
                     TRUSTED + ["canary bytes as the sensor for out-of-field stores (TLA+ cannot observe Go memory)", "the matrix of pairs is enumerated completely; values per pair are sampled"])
 
